@@ -483,6 +483,9 @@ func runC09(c *Ctx) {
 	// ---- R9 "valid implies linked" rests on the rules that reject what the walker cannot link (shared with C08.R9)
 	r9 := c.Rule("R9", "no report of a rule is hidden behind the emptiness of an unrelated list", 8)
 	c08FastPath(c, r9)
+
+	r10 := c.Rule("R10", "a rule that reports a missing link reports it on every path", 4)
+	c09MissingLinkReported(c, r10)
 }
 
 // c09OnlyWalkerWrites: outside the walker (and the parser, which builds the nodes, and the JSON decoder, which builds
@@ -1578,6 +1581,12 @@ func runC08(c *Ctx) {
 
 	r9 := c.Rule("R9", "no report of a rule is hidden behind the emptiness of an unrelated list", 8)
 	c08FastPath(c, r9)
+
+	r10 := c.Rule("R10", "a rule that reports a missing link reports it on every path", 4)
+	c09MissingLinkReported(c, r10)
+
+	r11 := c.Rule("R11", "a two-sided comparison takes one operand from each side at every call", 10)
+	c08TwoSided(c, r11)
 }
 
 // typeCaseEntry: the block entered when `it.(type)` is *ast.<name>.
